@@ -220,7 +220,7 @@ func (t *rt) exec(src string, m *mode) (fails []failure, outcome string, nontriv
 	}
 	// 3. white-box: operand stack and auxiliary stacks back to idle
 	if st := goja.VerifIdle(t.r); func() bool { st.PC = 0; return st != t.idle }() {
-		add("idle|"+idleDiff(t.idle, st), fmt.Sprintf("runtime not idle after return: %+v (idle: %+v)", st, t.idle))
+		add("idle|"+idleDiff(t.idle, st)+"|"+constructClass(src), fmt.Sprintf("runtime not idle after return: %+v (idle: %+v)", st, t.idle))
 		reusable = false
 	}
 	return
@@ -249,6 +249,22 @@ func panicSite() string {
 func safeErrorText(err error) (msg string, perr interface{}) {
 	defer func() { perr = recover() }()
 	return err.Error(), nil
+}
+
+// constructClass names the syntax classes present in a source text whose code generation manipulates the operand
+// stack in special ways; it makes the signature of a stack-leak finding specific to a construct combination.
+func constructClass(src string) string {
+	var cs []string
+	for _, c := range []struct{ tok, name string }{{"?.", "optchain"}, {"&&", "and"}, {"||", "or"}, {"??", "nullish"}, {"...", "spread"}, {"yield", "yield"}, {"await", "await"},
+		{"super", "super"}, {"`", "template"}, {"#", "private"}, {"new", "new"}, {"=>", "arrow"}, {"class", "class"}, {"try", "try"}, {"for", "for"}, {"switch", "switch"}, {"with", "with"}, {"delete", "delete"}, {",", "comma"}, {"?", "cond"}} {
+		if strings.Contains(src, c.tok) {
+			cs = append(cs, c.name)
+		}
+	}
+	if len(cs) > 6 {
+		cs = cs[:6]
+	}
+	return strings.Join(cs, "+")
 }
 
 func idleDiff(a, b goja.VerifIdleState) string {
